@@ -255,9 +255,18 @@ def run_ops(core, rng, tier, nops):
                 while k * sr > 1000 * cap:
                     k //= 2
                 d = k / 1000
+                exact = False
+                if rng.random() < .4:
+                    # a dyadic duration whose product with the rate is exactly k + 1/2: nothing is float-ambiguous, round() is half-to-even
+                    j2 = (sr & -sr).bit_length()          # v2(sr) + 1
+                    m = 2 * rng.randint(0, 6) + 1
+                    if m * sr // (1 << j2) <= cap:
+                        d = m / (1 << j2)
+                        exact = True
                 res = core.make_silence(d, sr, sw, ch)
-                dn, dd = frac(d)
-                e.update(dn=dn, dd=dd, ret=proj(res), par=par_of(res))
+                f_ = Fraction(d) if exact else Fraction(str(d))
+                dn, dd = f_.numerator, f_.denominator
+                e.update(dn=dn, dd=dd, ret=proj(res), par=par_of(res), exact=exact)
                 P.add(res)
             elif op == "eq":
                 i, j = pick(False), pick(False)
@@ -299,7 +308,7 @@ def run_ops(core, rng, tier, nops):
         e["intact"] = P.intact()
         # make every event carry every field the trace specification may read
         for f_, dv in (("ret", []), ("par", [0, 0, 0]), ("r", 1), ("r1", 1), ("r2", 1), ("rs", [1]), ("sep", 1), ("a", 0), ("b", 0), ("n", 1),
-                       ("an", 0), ("ad", 1), ("bn", 0), ("bd", 1), ("v", 0), ("num", 0), ("den", 1), ("pieces", []), ("dn", 0), ("dd", 1), ("same", True)):
+                       ("an", 0), ("ad", 1), ("bn", 0), ("bd", 1), ("v", 0), ("num", 0), ("den", 1), ("pieces", []), ("dn", 0), ("dd", 1), ("same", True), ("exact", False)):
             e.setdefault(f_, dv)
         ev.append(e)
     return {"pool": pool0, "ev": ev, "fmt": [P.sr, sw, ch]}
